@@ -11,6 +11,7 @@ Definition asOVec (s : sx) : option (list (option Q)) := asListOf asOQ s.
    tens of thousands of digits); comparisons with the implementation use tolerances >= 1e-16 *)
 Definition OUTBITS : Z := 2 ^ 200.
 Definition ofQa (q : Q) : sx := L [I (Z.div (Qnum q * OUTBITS) (Zpos (Qden q))); I OUTBITS].
+Definition qa (q : Q) : Q := Qmake (Z.div (Qnum q * OUTBITS) (Zpos (Qden q))) (Z.to_pos OUTBITS).   (* the printed value *)
 Definition ofVeca (v : list Q) : sx := ofList ofQa v.
 Definition ofVec (v : list Q) : sx := ofList ofQ v.
 Definition ofMat (m : mat) : sx := ofList ofVec m.
@@ -129,10 +130,11 @@ Fixpoint grid_down (cnt : nat) (y : Q) : list Q :=
   match cnt with O => [] | S c => let y' := Qred (y - YPAS) in y' :: grid_down c y' end.
 Definition memo_phi (tbl : list (Q * Q)) (phi : Q -> Q) (y : Q) : Q :=
   match find (fun p => Qeq_bool (fst p) y) tbl with Some p => snd p | None => phi y end.
-Definition run_anam (A : anam) (yq zq : list (option Q)) : sx :=
+Definition mk_table (A : anam) : list (Q * Q) :=
+  map (fun y => (y, t2r A y)) (0 :: 1 :: (-(1)) :: grid YPAS 101 0 ++ grid_down 101 0).
+(* the table is a parameter so that the extracted code builds it once per case *)
+Definition run_anam_tbl (A : anam) (tbl : list (Q * Q)) (yq zq : list (option Q)) : sx :=
   let phi0 := t2r A in
-  let keys' := 0 :: 1 :: (-(1)) :: grid YPAS 101 0 ++ grid_down 101 0 in
-  let tbl := map (fun y => (y, phi0 y)) keys' in
   let phi := memo_phi tbl phi0 in
   L [ ofList (fun o => match o with Some y => L [ofQa (phi0 y); ofQa (abs_expansion A y)] | None => L [] end) yq;
       ofList (fun o => match o with
@@ -140,18 +142,19 @@ Definition run_anam (A : anam) (yq zq : list (option Q)) : sx :=
                            if in_core_b A z then
                              match r2t_core phi z with
                              | Some (y0, b) =>
-                                 let y := if an_flagBound A then clamp_hi (getVmax (an_ay A)) (clamp_lo (getVmin (an_ay A)) y0) else y0 in
+                                 let y := qa (if an_flagBound A then clamp_hi (getVmax (an_ay A)) (clamp_lo (getVmin (an_ay A)) y0) else y0) in
                                  L [ofQa y; ofQa (phi0 y); ofBracket b; I 1; ofQa (r2t_margin phi z); ofQa (abs_expansion A y)]
                              | None => L [I (-1)]
                              end
                            else
                              match r2t A z with
-                             | Some y => L [ofQa y; ofQa (phi0 y); L []; I 0; L []; ofQa (abs_expansion A y)]
+                             | Some y' => let y := qa y' in L [ofQa y; ofQa (phi0 y); L []; I 0; L []; ofQa (abs_expansion A y)]
                              | None => L [I (-1)]
                              end
                        | None => L []
                        end) zq;
       ofQa (dzmax_of phi) ].
+Definition run_anam (A : anam) (yq zq : list (option Q)) : sx := run_anam_tbl A (mk_table A) yq zq.
 
 (* ---- kind 3: normal score.  (3 data wt) -> probability by sample index (or ()) ; () when the code refuses *)
 Definition run_ns (data : list (option Q)) (wt : list Q) : sx :=
@@ -211,6 +214,11 @@ Definition run (c : sx) : sx :=
       match asNat n, asB fl, asMat M, asMat Mi, asMat vecs with
       | Some n', Some fl', Some M', Some Mi', Some vecs' => run_rot n' fl' M' Mi' vecs'
       | _, _, _, _, _ => sx_error 1
+      end
+  | L [I 6%Z; y; psi; sq] =>
+      match asQ y, asVec psi, asVec sq with
+      | Some y', Some psi', Some sq' => L [ofQa (expansion psi' (sqfun sq') y')]
+      | _, _, _ => sx_error 1
       end
   | _ => sx_error 0
   end.
